@@ -12,11 +12,17 @@ from .. import datasets as D
 IMPORTS = ('phylib.io.model',)
 
 
+class ObservationError(Exception):
+    """A value observed from the code under test is not representable in the exact (scaled integer) arithmetic
+    the generated inputs guarantee for a correct implementation: reported as a violation by ctx.guard."""
+
+
 def ints(x, scale=1):
     a = np.asarray(x, dtype=np.float64) * scale
     r = np.rint(a)
     if not np.array_equal(a, r):
-        raise MachineryError('non-integral value after scaling by %s: %r' % (scale, a))
+        raise ObservationError('an observed value is not a multiple of 1/%s although all inputs are: %r' % (
+            scale, a.ravel()[:12]))
     return as_list(r.astype(np.int64))
 
 
